@@ -38,7 +38,7 @@ pub struct Shared {
     pub api: Mutex<Vec<(u64, Api)>>,
     pub noise: u32,
     pub done: AtomicBool,
-    pub watchdog_note: Mutex<Option<(String, String)>>,
+    pub watchdog_note: Mutex<Option<(String, String, usize)>>,
 }
 
 /// Called by the watchdog thread when it has evidence of a deadlock on library locks: the thread that runs
@@ -297,6 +297,9 @@ pub struct ThreadScenario {
     pub server: EpCfg,
     pub streams: Vec<TStream>,
     pub pings: u32,
+    /// keep one request handle alive until every stream thread has finished, then drop it from the scenario
+    /// thread while the connection thread is running (idle-close race)
+    pub late_handle_drop: bool,
     pub chaos_threads: u32,
     pub max_chunk: [usize; 2],
     pub pending_prob: u64,
@@ -324,6 +327,9 @@ pub fn gen_thread(seed: u64, small: bool) -> ThreadScenario {
     if rng.chance(1, 2) {
         server.max_concurrent_streams = Some(rng.range(1, 4) as u32);
     }
+    // the small-DATA-frame budget is a documented DoS defence that tiny windows would trip (judged under C18)
+    client.data_frame_budget = Some(1 << 40);
+    server.data_frame_budget = Some(1 << 40);
     let ns = if small { rng.range(1, 2) } else { rng.range(2, 9) } as usize;
     let cap = if small { 600 } else { 60_000 };
     let mut streams = Vec::new();
@@ -358,7 +364,8 @@ pub fn gen_thread(seed: u64, small: bool) -> ThreadScenario {
         client,
         server,
         streams,
-        pings: if small { rng.range(0, 1) as u32 } else { rng.range(0, 4) as u32 },
+        pings: if small { rng.range(0, 2) as u32 } else { *rng.pick(&[0u32, 1, 3, 20, 200, 600]) },
+        late_handle_drop: rng.chance(1, 2),
         chaos_threads: if small { rng.range(0, 1) as u32 } else { rng.range(0, 3) as u32 },
         max_chunk: [*rng.pick(&[0usize, 0, 1, 7, 100, 5_000]), *rng.pick(&[0usize, 0, 1, 7, 100, 5_000])],
         pending_prob: *rng.pick(&[0u64, 0, 5, 30]),
@@ -371,7 +378,7 @@ impl ThreadScenario {
         serde_json::json!({
             "seed": self.seed, "family": "threads", "client": self.client.to_json(), "server": self.server.to_json(),
             "streams": self.streams.iter().map(|s| format!("{:?}", s)).collect::<Vec<_>>(),
-            "pings": self.pings, "chaos_threads": self.chaos_threads, "max_chunk": self.max_chunk, "pending_prob": self.pending_prob, "noise": self.noise,
+            "pings": self.pings, "late_handle_drop": self.late_handle_drop, "chaos_threads": self.chaos_threads, "max_chunk": self.max_chunk, "pending_prob": self.pending_prob, "noise": self.noise,
         })
     }
 }
@@ -694,7 +701,7 @@ pub fn run_threads(sc: &ThreadScenario, watchdog_secs: u64, on_deadlock: OnDeadl
                             on_deadlock(v, dump.clone());
                             // (the callback normally ends the process)
                         }
-                        *sh.watchdog_note.lock().unwrap() = Some((format!("watchdog: no progress for {} s ({} thread(s) parked on a library lock)", watchdog_secs, blocked), dump));
+                        *sh.watchdog_note.lock().unwrap() = Some((format!("watchdog: no progress for {} s ({} thread(s) parked on a library lock)", watchdog_secs, blocked), dump, blocked));
                         sh.abort.store(true, Ordering::Relaxed);
                         return;
                     }
@@ -816,6 +823,7 @@ pub fn run_threads(sc: &ThreadScenario, watchdog_secs: u64, on_deadlock: OnDeadl
             ops
         }));
     }
+    let mut late_sr = if sc.late_handle_drop { Some(sr.clone()) } else { None };
     drop(sr);
     let ping_h = if sc.pings > 0 {
         let pp = ping_pong.take();
@@ -858,6 +866,11 @@ pub fn run_threads(sc: &ThreadScenario, watchdog_secs: u64, on_deadlock: OnDeadl
     // ---- wait for the threads (the watchdog thread decides about stalls)
     let mut inconclusive = None;
     loop {
+        if late_sr.is_some() && stream_hs.iter().all(|h| h.is_finished()) {
+            // every stream is done: the last request handle goes away on this thread, concurrently with the
+            // connection thread's polling
+            late_sr = None;
+        }
         if client_h.is_finished() && server_h.is_finished() && stream_hs.iter().all(|h| h.is_finished()) {
             break;
         }
@@ -868,9 +881,18 @@ pub fn run_threads(sc: &ThreadScenario, watchdog_secs: u64, on_deadlock: OnDeadl
         std::thread::sleep(Duration::from_millis(if cfg!(miri) { 1 } else { 2 }));
     }
     sh.done.store(true, Ordering::Relaxed);
-    if let Some((why, dump)) = sh.watchdog_note.lock().unwrap().take() {
+    if let Some((why, dump, blocked)) = sh.watchdog_note.lock().unwrap().take() {
         notes.push(format!("{}; stack dump:\n{}", why, dump));
-        inconclusive = Some(why);
+        // Nobody is waiting for a lock, nothing is in flight in the transport, and yet threads sit in their
+        // executors for ever: with cooperative programs (every reader reads on and releases, every writer goes
+        // on) that is a lost wake-up - "every operation completes" broken under real concurrency.
+        let in_flight: usize = (0..2).map(|d| pipe.dirs[d].lock().map(|g| g.buf.len()).unwrap_or(1)).sum();
+        if blocked == 0 && in_flight == 0 && !cfg!(miri) {
+            let parked: Vec<&str> = dump.lines().filter(|l| l.starts_with("Thread")).filter_map(|l| l.split('"').nth(1)).filter(|n| *n != "watchdog" && *n != "threadrun").collect();
+            violations.push(Violation::new("C20", "stall-without-lock-wait-or-bytes-in-flight", format!("no thread made progress for {} s; no thread waits for a lock, the transport is empty in both directions; threads still parked: {:?}", watchdog_secs, parked)));
+        } else {
+            inconclusive = Some(why);
+        }
     }
     let aborted = sh.abort.load(Ordering::Relaxed);
     // ---- collect
